@@ -468,10 +468,19 @@ impl Scenario for C07 {
                 if wk == WrapKind::Pke && f == 3 {
                     e[0] &= 0x7f; // keep the scalar below the group order
                 }
-                b.push(Step::RefWrap { blob, family: f, wk, key, with: with_w, params, entropy: Bytes::hex(&e) });
+                b.push(Step::RefWrap { blob, family: f, wk, key, with: with_w, params, entropy: Bytes::hex(&e), own_secret: false });
             }
             for node in 0..nodes.len() {
                 b.push(Step::Unwrap { blob, node, with: with_u.clone(), faults: vec![], as_kind: None });
+            }
+        }
+        // key sealing by a conforming sender whose ephemeral secret happens to be the recipient's own secret
+        // scalar (the blob's ephemeral public key equals the recipient's public key): every node unseals it
+        if f != 1 && b.rng.chance(1, 3) {
+            let blob = b.blob_slot();
+            b.push(Step::RefWrap { blob, family: f, wk: WrapKind::Pke, key: fk.local, with: SecretRef::Key { slot: fk.pke_public }, params: PwParams::Default, entropy: Bytes::hex(&[7u8; 48]), own_secret: true });
+            for node in 0..nodes.len() {
+                b.push(Step::Unwrap { blob, node, with: SecretRef::Key { slot: fk.pke_secret }, faults: vec![], as_kind: None });
             }
         }
         // k3: secret keys at the edges of the scalar range (1, n-1, one machine word below n, ...) written
@@ -490,7 +499,7 @@ impl Scenario for C07 {
                 let (with_w, with_u) = wrap_secret_for(&fk, wk, &pw);
                 let blob = b.blob_slot();
                 let e = crate::prng::Rng::new(b.ev_seed()).bytes(56);
-                b.push(Step::RefWrap { blob, family: 3, wk, key: slot, with: with_w, params: PwParams::Iter(3), entropy: Bytes::hex(&e) });
+                b.push(Step::RefWrap { blob, family: 3, wk, key: slot, with: with_w, params: PwParams::Iter(3), entropy: Bytes::hex(&e), own_secret: false });
                 for node in 0..nodes.len() {
                     b.push(Step::Unwrap { blob, node, with: with_u.clone(), faults: vec![], as_kind: None });
                 }
@@ -532,7 +541,7 @@ impl Scenario for C07 {
                 if b.rng.bool() {
                     let mut e = salt.clone();
                     e.extend(crate::prng::Rng::new(b.ev_seed()).bytes(nonce_len));
-                    b.push(Step::RefWrap { blob, family: f, wk: WrapKind::Pw, key, with: with.clone(), params, entropy: Bytes::hex(&e) });
+                    b.push(Step::RefWrap { blob, family: f, wk: WrapKind::Pw, key, with: with.clone(), params, entropy: Bytes::hex(&e), own_secret: false });
                 } else {
                     let writer = b.rng.usize_below(nodes.len());
                     let rng = RngSpec::Script { draws: vec![hex::encode(&salt)], seed: b.ev_seed() };
@@ -563,7 +572,7 @@ impl Scenario for C07 {
                 if b.rng.bool() {
                     let mut e = r.salt.clone();
                     e.extend(crate::prng::Rng::new(b.ev_seed()).bytes(24));
-                    b.push(Step::RefWrap { blob, family: f, wk: WrapKind::Pw, key, with: with.clone(), params, entropy: Bytes::hex(&e) });
+                    b.push(Step::RefWrap { blob, family: f, wk: WrapKind::Pw, key, with: with.clone(), params, entropy: Bytes::hex(&e), own_secret: false });
                 } else {
                     // the library draws the salt first: script that draw so that the reference can follow
                     let rng = RngSpec::Script { draws: vec![hex::encode(&r.salt)], seed: b.ev_seed() };
